@@ -2,6 +2,7 @@
 import PdbVerif.Driver.Json
 import PdbVerif.Driver.GCommon
 import PdbVerif.Spec.C08
+import PdbVerif.Spec.C13
 
 namespace Driver.SpecG
 open Lean Driver Driver.GCommon
@@ -40,6 +41,32 @@ def op (name : String) (j : Json) : Except String (Option Json) := do
           Spec.C08.chainLt a.chainID b.chainID && !Spec.C08.isHydrogen a && !Spec.C08.isHydrogen b &&
           decide (Spec.C08.sqDist a b = 9)))).length),
       ("two_chains", boolJ (twoChains s).isSome)]))
+  | "superpose" =>
+    -- the property evaluated on what was observed: the tables before and after the call, the files that appeared, and a
+    -- candidate motion (R, t) fitted by the harness
+    let mb ← jAtoms j "mobile"; let ma ← jAtoms j "mobile_after"
+    let tb ← jAtoms j "target"; let ta ← jAtoms j "target_after"
+    let sel ← jSel j "sel"; let ob ← jBool j "only_backbone"
+    let bbNames ← jStrList j "backbone"
+    let p : Py.Atom → Bool := fun a => sel.test a && (!ob || bbNames.contains a.name)
+    let R ← mat3OfList (← jRatList j "fit_R"); let t ← vec3OfList (← jRatList j "fit_t")
+    let m : Spec.C13.Motion Rat := { R := R, t := t }
+    let sameCount := decide (ma.length = mb.length)
+    let attrsSame := sameCount && (List.zip mb ma).all (fun q => decide (Spec.C13.SameButPosition q.1 q.2))
+    -- largest squared distance between an observed new position and the candidate motion applied to the old one
+    let motionDefect := Spec.rmax ((List.zip mb ma).map (fun q =>
+      Py.Vec3.normSq (Py.Vec3.sub (Spec.C13.pos q.2) (m.apply (Spec.C13.pos q.1)))))
+    let orthDefect := Spec.rmax [Spec.maxAbsDiff (R.mul R.T) Py.Mat3.one, Spec.maxAbsDiff (R.T.mul R) Py.Mat3.one]
+    let detDefect := Spec.rabs (R.det - 1)
+    let sh := Spec.C13.shared p mb tb
+    let shAfter := Spec.C13.sharedPos p ma ta
+    pure (some (Json.mkObj [
+      ("count_same", boolJ sameCount), ("attrs_same", boolJ attrsSame), ("target_same", boolJ (decide (ta = tb))),
+      ("motion_defect", ratJ motionDefect), ("orth_defect", ratJ orthDefect), ("det_defect", ratJ detDefect),
+      ("n_shared", natJ sh.length),
+      ("unique_ident", boolJ (decide (Spec.C13.UniqueIdent p mb) && decide (Spec.C13.UniqueIdent p tb))),
+      ("shared_before", Json.arr (sh.map (fun q => Json.arr #[vecJ (Spec.C13.pos q.1), vecJ (Spec.C13.pos q.2)])).toArray),
+      ("sq_dev_after", ratJ (Spec.C13.sqDev shAfter))]))
   | _ => pure none
 
 end Driver.SpecG
